@@ -1,8 +1,18 @@
 import Driver
 
+def allEngines : List (String × IO UInt32) :=
+  Driver.Reg.Core.engines ++ Driver.Reg.Silence.engines ++ Driver.Reg.Alerts.engines ++
+  Driver.Reg.Routing.engines ++ Driver.Reg.Time.engines ++ Driver.Reg.Matcher.engines ++
+  Driver.Reg.Limits.engines ++ Driver.Reg.Persist.engines ++ Driver.Reg.Sys.engines
+
 def main (args : List String) : IO UInt32 := do
   match args with
-  | ["nflog"] => Driver.runEngine Driver.Nflog.engine
+  | [name] =>
+    match allEngines.lookup name with
+    | some run => run
+    | none => do
+      IO.eprintln s!"unknown engine {name}; known: {allEngines.map (·.1)}"
+      return 2
   | _ => do
     IO.eprintln "usage: amdrv <engine> < trace"
     return 2
